@@ -322,6 +322,11 @@ func (c *FnCtx) writeBack(st *State, target ast.Expr, n *SliceVal) {
 		c.writeBack(st, t.X, n)
 	case *ast.SliceExpr:
 		// contents of the underlying variable change; its header does not
+		if hv, isHash := c.eval(st, t.X).(SV); isHash && hv.S.K == KHash {
+			// writing through h[:] changes the hash to an unknown value
+			c.assignTo(st, t.X, SV{c.fresh("hash_written", SHash), SHash, false})
+			return
+		}
 		base, ok := c.eval(st, t.X).(*SliceVal)
 		if !ok {
 			c.unsupportedf(target.Pos(), "write through slice of %T", target)
@@ -345,6 +350,8 @@ func (c *FnCtx) writeBack(st *State, target ast.Expr, n *SliceVal) {
 
 func (c *FnCtx) execReturn(st *State, x *ast.ReturnStmt) {
 	var vals []Val
+	c.inReturn = true
+	defer func() { c.inReturn = false }()
 	if len(x.Results) == 0 {
 		// named results
 		for _, o := range c.resObjs {
@@ -749,8 +756,10 @@ func (c *FnCtx) execRange(st *State, x *ast.RangeStmt) Outcome {
 	case *SliceVal:
 		// hidden index; the length is evaluated once
 		idxObj := types.NewVar(x.Pos(), c.prog.Pkg, fmt.Sprintf("$i%d", n), types.Typ[types.Int])
+		lenObj := types.NewVar(x.Pos(), c.prog.Pkg, fmt.Sprintf("$n%d", n), types.Typ[types.Int])
 		entryLen := r.Len
 		st.env[idxObj] = SV{bvInt(0, 64), S64, true}
+		st.env[lenObj] = SV{entryLen, S64, true}
 		// the range expression must not be re-assigned in the body when it is a variable (see DESIGN 2.3)
 		condFn := func(s *State) string {
 			return c.define("lc", SBool, app("bvslt", s.env[idxObj].(SV).T, entryLen))
@@ -799,6 +808,7 @@ func (c *FnCtx) execRange(st *State, x *ast.RangeStmt) Outcome {
 		}})
 		if out.normal != nil {
 			delete(out.normal.env, idxObj)
+			delete(out.normal.env, lenObj)
 		}
 		return out
 	case OpaqueVal:
